@@ -320,7 +320,62 @@ def run(tier):
     # line of a stream only: the same text would scan differently after an earlier document)
     from . import units
     rep.floor("comparisons between cursor coordinates of known unit", units.check(rep, F), 1)
+    stream_start_consumes_nothing_of_its_own(rep, F)
     return rep
+
+
+def stream_start_consumes_nothing_of_its_own(rep, F, rule="stream-start-consumes-like-a-document-start"):
+    """fetch_stream_start runs once, before the first document only.  If it takes characters from the input (a byte order mark, a
+    shebang line, ...) under some character test, a document that follows a '...' line must lose the same characters under the same
+    test - otherwise stream B parses differently alone (where its first characters meet fetch_stream_start) and after A (where they
+    do not).  Decided structurally: the character tests of fetch_stream_start that guard a consuming call must also be called by the
+    functions that run between documents (skip_to_next_token, fetch_next_token, fetch_document_indicator).  A stream start that
+    consumes nothing satisfies the rule trivially (the tree as it stands)."""
+    S = SCANNER + "::"
+    f = F.fns.get(S + "fetch_stream_start")
+    if f is None:
+        raise facts.MissingAnchor("fetch_stream_start not found")
+
+    def consuming(ck):
+        return ck and (ck.endswith(("Input::skip", "Input::skip_n", "Input::raw_read_ch")) or ck.rsplit("::", 1)[-1].startswith(("skip", "read_", "fetch_while", "scan_")))
+    cons = [(bb, t, ck) for bb, t, ck, fr in f.calls() if consuming(ck)]
+    if not cons:
+        rep.ok(rule, "fetch_stream_start consumes no input")
+        return
+    tests = sorted({ck for bb, t, ck, fr in f.calls() if ck and (ck.startswith("saphyr_parser::char_traits::") or ".next_is" in ck or "::next_is" in ck
+                                                                 or ck.endswith(("Input::peek", "Input::look_ch", "Input::peek_nth", "Input::next_char_is")))})
+    between = set()
+    for nm in ("skip_to_next_token", "fetch_next_token", "fetch_document_indicator", "fetch_more_tokens"):
+        g = F.fns.get(S + nm)
+        if g is not None:
+            between |= {ck for bb, t, ck, fr in g.calls() if ck}
+    own = [ck for ck in tests if ck.startswith("saphyr_parser::char_traits::") and ck not in between]
+
+    def char_consts(g):
+        out = set()
+        for b in g.blocks:
+            tt = b["term"]
+            if b["cleanup"] or tt["k"] != "switch":
+                continue
+            e = cfg.expr_operand(g, tt["discr"], 8)
+            es = cfg.expr_str(e)
+            if "peek" in es or "look_ch" in es:
+                out |= {v for v in tt["vals"] if v > 1}
+                import re as _re
+                out |= {int(x) for x in _re.findall(r"\('char', (\d+)\)", es)}
+        return out
+    mine = char_consts(f)
+    theirs = set()
+    for nm in ("skip_to_next_token", "fetch_next_token", "fetch_document_indicator", "fetch_more_tokens"):
+        g = F.fns.get(S + nm)
+        if g is not None:
+            theirs |= char_consts(g)
+    own += ["a comparison of the character at the cursor with U+%04X" % c for c in sorted(mine - theirs)]
+    if not own and not tests:
+        own = ["(unconditionally)"]
+    rep.check(not own, rule, "fetch_stream_start", "fetch_stream_start takes characters from the input (%s) under the test %s, which none of the functions that run between "
+              "documents makes: the first document of a stream is scanned differently from the same text after a '...' line"
+              % (", ".join(sorted({short(ck) for _, _, ck in cons})), ", ".join(short(x) if "::" in x else x for x in own)), site=f.span)
 
 
 def block_scalar_stops_at_marker(rep, F):
